@@ -11,7 +11,8 @@ Record world := { w_log : list str; w_acq : nat; w_rel : nat; w_rec : nat }.
 Definition shift (w : world) (s : rstate) : rstate :=
   {| st_status := st_status s; st_hdr := st_hdr s; st_raw := st_raw s; st_comp := st_comp s;
      st_log := w_log w ++ st_log s; st_attrs := st_attrs s;
-     st_acq := st_acq s + w_acq w; st_rel := st_rel s + w_rel w; st_recovered := st_recovered s + w_rec w |}.
+     st_acq := st_acq s + w_acq w; st_rel := st_rel s + w_rel w; st_recovered := st_recovered s + w_rec w;
+     st_pretty := st_pretty s; st_upper := st_upper s |}.
 
 Definition shift_res (w : world) (r : res) : res :=
   match r with Done s => Done (shift w s) | Panicked m s => Panicked m (shift w s) end.
@@ -29,6 +30,8 @@ Proof.
   unfold write_body; cbn. destruct (st_comp s) as [[[c ch] [|]]|]; try reflexivity;
     unfold write_header; cbn; destruct (st_status s); reflexivity.
 Qed.
+Lemma shift_set_wrapper w s p u : set_wrapper (shift w s) p u = shift w (set_wrapper s p u).
+Proof. reflexivity. Qed.
 Lemma shift_install w c s : install c (shift w s) = shift w (install c s).
 Proof. reflexivity. Qed.
 Lemma shift_close_comp w s : close_comp (shift w s) = shift w (close_comp s).
@@ -54,6 +57,8 @@ Proof.
   - now rewrite <- shift_upd_log.
   - reflexivity.
   - reflexivity.
+  - reflexivity.
+  - change (st_pretty (shift w s)) with (st_pretty s). now rewrite shift_write_header, shift_write_body.
 Qed.
 
 Lemma shift_run_actions w l : forall s, run_actions l (shift w s) = shift_res w (run_actions l s).
@@ -70,12 +75,21 @@ Proof.
   rewrite shift_upd_log, shift_run_actions. apply shift_bind. intros s1.
   destruct (f_pass f).
   - change (st_attrs (shift w s1)) with (st_attrs s1).
+    change (st_pretty (shift w s1)) with (st_pretty s1). change (st_upper (shift w s1)) with (st_upper s1).
     assert (E : (if f_fresh f then upd_attrs (shift w s1) [] else shift w s1)
                 = shift w (if f_fresh f then upd_attrs s1 [] else s1)) by (destruct (f_fresh f); reflexivity).
-    rewrite E, (IH target target' _ Ht). apply shift_bind. intros s2.
+    rewrite E. set (s1' := if f_fresh f then upd_attrs s1 [] else s1).
+    assert (E' : (if f_wrap f then set_wrapper (shift w s1') true (S (st_upper (shift w s1'))) else shift w s1')
+                 = shift w (if f_wrap f then set_wrapper s1' true (S (st_upper s1')) else s1'))
+      by (destruct (f_wrap f); reflexivity).
+    rewrite E', (IH target target' _ Ht). apply shift_bind. intros s2.
     assert (E2 : (if f_fresh f then upd_attrs (shift w s2) (st_attrs s1) else shift w s2)
                  = shift w (if f_fresh f then upd_attrs s2 (st_attrs s1) else s2)) by (destruct (f_fresh f); reflexivity).
-    rewrite E2, shift_run_actions. apply shift_bind. intros s3. cbn. now rewrite shift_upd_log.
+    rewrite E2. set (s2' := if f_fresh f then upd_attrs s2 (st_attrs s1) else s2).
+    assert (E2' : (if f_wrap f then set_wrapper (shift w s2') (st_pretty s1) (st_upper s1) else shift w s2')
+                  = shift w (if f_wrap f then set_wrapper s2' (st_pretty s1) (st_upper s1) else s2'))
+      by (destruct (f_wrap f); reflexivity).
+    rewrite E2', shift_run_actions. apply shift_bind. intros s3. cbn. now rewrite shift_upd_log.
   - rewrite shift_run_actions. apply shift_bind. intros s3. cbn. now rewrite shift_upd_log.
 Qed.
 
@@ -126,7 +140,8 @@ Proof.
     match goal with |- context [run_actions ?l ?st] =>
       replace st with (shift w {| st_status := st_status s'; st_hdr := st_hdr s'; st_raw := st_raw s'; st_comp := st_comp s';
                                  st_log := st_log s' ++ [L "recover:" ++ m]; st_attrs := st_attrs s';
-                                 st_acq := st_acq s'; st_rel := st_rel s'; st_recovered := S (st_recovered s') |})
+                                 st_acq := st_acq s'; st_rel := st_rel s'; st_recovered := S (st_recovered s');
+                                 st_pretty := true; st_upper := 0 |})
         by (unfold shift; cbn; now rewrite app_assoc) end.
     rewrite shift_run_actions. apply shift_close_res.
 Qed.
